@@ -6,6 +6,7 @@ DEFAULT = dict(
     p_const=0.12, p_errfut=0.04, p_item=0.45, p_dict=0.08, p_none=0.08, p_read=0.06, p_probe=0.06,
     p_item_err=0.08, p_item_skip=0.05, p_flush_raise=0.1, p_prio=0.4, p_ctx_fault=0.0, p_nonasync=0.0,
     p_override=0.4, p_result=0.1, nvars=2, roots=(1, 1), p_lazy_err=0.4, p_keep=0.0, max_width=3, p_maxstack=0.0,
+    p_again=0.0,      # a yield of a container of stored handles whose very same container object is yielded a second time
 )
 
 
@@ -159,6 +160,15 @@ class Gen:
                 x = self.fx()
                 out.append({"op": "yield", "x": x, "s": self.struct(depth, vals, hands)})
                 vals.append(x)
+                if c["p_again"] > 0 and hands and self.r.random() < c["p_again"]:
+                    # the same list / dict object (of handles created earlier) is yielded twice
+                    k = self.r.choice([1, 2, 2, 3])
+                    leaves = [{"old": self.r.choice(hands)} if self.r.random() < 0.85 else None for _ in range(k)]
+                    kind = self.r.choice(["list", "list", "dict", "tuple"])
+                    s = {"dict": [[i, l] for i, l in enumerate(leaves)]} if kind == "dict" else {kind: leaves}
+                    x1, x2 = self.fx(), self.fx()
+                    out.append({"op": "yield", "x": x1, "s": s, "again": x2})
+                    vals.extend([x1, x2])
         if terminal:
             r = self.r.random()
             if r < c["p_result"]:
